@@ -781,6 +781,8 @@ def _transition(ctx, r, pre, post, via):
             ctx.violate("C06", "illegal_transition", f"{r['uname']}: {pre} -> {post} via {via}")
         if pre in FINAL and post != pre:
             ctx.violate("C06", "left_final_state", f"{r['uname']}: {pre} -> {post} via {via}")
+        if post == "VIRTUAL" and r.get("released_at") is not None:
+            ctx.violate("C06", "released_task_back_to_virtual", f"{r['uname']}: released at {r['released_at']}, {pre} -> VIRTUAL via {via}")
         r["history"].append(post)
     r["state"] = post
 
@@ -1198,7 +1200,7 @@ def _alarm(signum, frame):
     raise WallClock("wall-clock alarm")
 
 
-def run_world(world, workdir, opts=None, extra_install=None, wall_s=60):
+def run_world(world, workdir, opts=None, extra_install=None, wall_s=None):
     """Run one world in-process.  Returns the Ctx (with .status set)."""
     global _ACTIVE
     from absl import flags as absl_flags
@@ -1233,7 +1235,9 @@ def run_world(world, workdir, opts=None, extra_install=None, wall_s=60):
     _ACTIVE = ctx
     t0 = time.time()
     old = signal.signal(signal.SIGALRM, _alarm)
-    signal.alarm(wall_s)
+    # generous: the alarm only bounds a run that the logical watchdogs cannot see (a solver call that never returns);
+    # on a loaded machine a planner world can take many times its idle wall time
+    signal.alarm(wall_s or int(os.environ.get("VERIF_WALL_S", "300")))
     try:
         repo_main.main([])
         ctx.status = "ended" if ctx.ended else "returned_without_end"
